@@ -156,6 +156,7 @@ type cpyCase struct {
 	srcNoReaderAt   bool          // ... whose sink can Read and Seek but has no ReadAt
 	srcMeta         int           // catalog metadata of the source: 0 none, 1 ordinary (compressed, encrypted), 2 Plaintext (/EncryptMetadata false when encrypted)
 	catalogMeta     pdf.Reference // the source catalog's /Metadata reference (0: none), set by buildSource
+	foreign         *cpyForeign   // the source is a file made by the Spec (cpy_eff.go), not written by the Writer
 }
 
 // cpySrc is the Getter handed to the Copier: the real Reader plus the overrides.
@@ -757,6 +758,9 @@ type cpyBuilt struct {
 // real Reader and installs the overrides.  Helper nodes for indirect /Filter
 // and /DecodeParms are appended to cs.nodes.
 func buildSource(cs *cpyCase) (*cpyBuilt, error) {
+	if cs.foreign != nil {
+		return buildForeign(cs)
+	}
 	r := &Rand{s: cs.seed ^ 0xabcdef}
 	var out io.Writer
 	memAt := &cpyMemAt{}
